@@ -1,3 +1,4 @@
+import MdsVerif.Gen.Small
 /-!
 # Model of `mbits` (mbits/mbits.go): `Zero`, `LeadingZeroes`, `TrailingZeroes`
 
@@ -11,6 +12,11 @@ distinct result `fuel`.  The theorems (Props/C20) show that both never happen.
 
 The 64-bit value is only ever compared with 0, so the word read returns
 "some byte of the word is non-zero" (endianness is irrelevant).
+
+The chunk boundaries (`n &^ 7`, `n - n&^7`), the strides (`i += 8`, `i -= 8`, `nz += 8`), the loop
+tests, `n-8` and the `i+7` of `TrailingZeroes` are definitions of `MdsVerif.Gen.Small`, regenerated
+from mbits/mbits.go on every run by `extract/small.go` (DESIGN.md §3.1); `Props.C20.C20_current`
+pins them.
 -/
 namespace MdsVerif.Model.Mbits
 
@@ -51,7 +57,7 @@ def wrByte (d : Bytes) (i : Nat) : Option Bytes :=
 def zTail (n : Nat) : Nat → Nat → Bytes → Res Bytes
   | 0, _, _ => .fuel
   | f+1, i, d =>
-    if i < n then
+    if Gen.Small.zeroTailCond i n then
       match wrByte d i with
       | none => .oob
       | some d' => zTail n f (i + 1) d'
@@ -61,16 +67,16 @@ def zTail (n : Nat) : Nat → Nat → Bytes → Res Bytes
 def zWords (n m : Nat) : Nat → Nat → Bytes → Res Bytes
   | 0, _, _ => .fuel
   | f+1, i, d =>
-    if i < m then
+    if Gen.Small.zeroWordCond i m then
       match wrWord d i with
       | none => .oob
-      | some d' => zWords n m f (i + 8) d'
+      | some d' => zWords n m f (i + Gen.Small.zeroStride) d'
     else zTail n (n + 1) i d
 
 /-- `Zero(data)`: the returned `n` and the slice afterwards -/
 def zero (d : Bytes) : Res (Nat × Bytes) :=
   let n := d.length
-  let m := clear3 n
+  let m := Gen.Small.zeroChunkEnd n   -- `m := n &^ 7`
   match zWords n m (n + 1) 0 d with
   | .ok d' => .ok (n, d')
   | .oob => .oob
@@ -90,7 +96,7 @@ def lzInner (d : Bytes) : Nat → Nat → Res Nat
 def lzTail (d : Bytes) (n : Nat) : Nat → Nat → Res Nat
   | 0, _ => .fuel
   | f+1, i =>
-    if i < n then
+    if Gen.Small.lzTailCond i n then
       match rd d i with
       | none => .oob
       | some b => if b == 0 then lzTail d n f (i + 1) else .ok i
@@ -100,16 +106,16 @@ def lzTail (d : Bytes) (n : Nat) : Nat → Nat → Res Nat
 def lzWords (d : Bytes) (n m : Nat) : Nat → Nat → Res Nat
   | 0, _ => .fuel
   | f+1, i =>
-    if i < m then
+    if Gen.Small.lzWordCond i m then
       match wordNZ d i with
       | none => .oob
       | some true => lzInner d (n + 1) i
-      | some false => lzWords d n m f (i + 8)
+      | some false => lzWords d n m f (i + Gen.Small.lzStride)
     else lzTail d n (n + 1) i
 
 def leadingZeroes (d : Bytes) : Res Nat :=
   let n := d.length
-  let m := clear3 n
+  let m := Gen.Small.lzChunkEnd n   -- `m := n &^ 7`
   lzWords d n m (n + 1) 0
 
 /-! ### TrailingZeroes (Go `int` indices: `i` and `m` go below zero) -/
@@ -118,7 +124,7 @@ def leadingZeroes (d : Bytes) : Res Nat :=
 def tzInner (d : Bytes) : Nat → Int → Nat → Res Nat
   | 0, _, _ => .fuel
   | f+1, i, nz =>
-    match rdI d (i + 7) with
+    match rdI d (Gen.Small.tzWordLast i) with
     | none => .oob
     | some b => if b == 0 then tzInner d f (i - 1) (nz + 1) else .ok nz
 
@@ -126,7 +132,7 @@ def tzInner (d : Bytes) : Nat → Int → Nat → Res Nat
 def tzTail (d : Bytes) : Nat → Int → Nat → Res Nat
   | 0, _, _ => .fuel
   | f+1, m, nz =>
-    if m ≥ 0 then
+    if Gen.Small.tzTailCond m then
       match rdI d m with
       | none => .oob
       | some b => if b == 0 then tzTail d f (m - 1) (nz + 1) else .ok nz
@@ -136,16 +142,16 @@ def tzTail (d : Bytes) : Nat → Int → Nat → Res Nat
 def tzWords (d : Bytes) (n : Nat) (m : Int) : Nat → Int → Nat → Res Nat
   | 0, _, _ => .fuel
   | f+1, i, nz =>
-    if i ≥ m then
+    if Gen.Small.tzWordCond i m then
       match wordNZI d i with
       | none => .oob
       | some true => tzInner d (n + 1) i nz
-      | some false => tzWords d n m f (i - 8) (nz + 8)
+      | some false => tzWords d n m f (i - Gen.Small.tzStride) (nz + Gen.Small.tzCountInc)
     else tzTail d (n + 1) (m - 1) nz
 
 def trailingZeroes (d : Bytes) : Res Nat :=
   let n := d.length
-  let m : Int := (n : Int) - (clear3 n : Int)
-  tzWords d n m (n + 1) ((n : Int) - 8) 0
+  let m : Int := (Gen.Small.tzRagged n : Nat)   -- `m := n - n&^7`
+  tzWords d n m (n + 1) (Gen.Small.tzStart n) 0
 
 end MdsVerif.Model.Mbits
